@@ -281,7 +281,11 @@ def fam_creation(g, prefix):
             ["error", "5"], ["start", "4"], ["defer", ["from_iter", "1", "2"]], ["from_result_ok", "3"], ["from_result_err", "6"],
             ["take", "3", ["repeat", "7"]], ["take", "0", ["repeat", "7"]], ["first", ["repeat", "1"]],
             ["take_while", ["lt", "2"], ["from_iter", "0", "1", "2", "3"]], ["take", "2", ["range", "0", "5"]],
-            ["take", "1", ["from_iter", "1", "2", "3"]]]
+            ["take", "1", ["from_iter", "1", "2", "3"]],
+            # unusual arguments of the creation functions: negative / huge counts and starts
+            ["range", "3", "-2"], ["take", "5", ["range", "3", "-2"]], ["default_if_empty", "9", ["range", "7", "-4"]], ["concat", ["range", "0", "2"], ["range", "10", "-1"], ["range", "20", "2"]],
+            ["range", "-3", "5"], ["range", "-2", "1"], ["take", "2", ["range", "9223372036854775800", "5"]], ["range", "0", "1"],
+            ["take", "3", ["repeat", "-1"]], ["from_iter", "-1", "0", "-1"], ["just", "-7"], ["start", "-4"], ["count", ["range", "5", "-5"]]]
     for i, s in enumerate(srcs):
         out.append(case("%s-%d" % (prefix, i), [["sub", s, NOREACT]]))
     return out
